@@ -210,10 +210,19 @@ func c09Variants(x ap.Item, f vocab.Field) (out []c09Variant) {
 			out = append(out, c09Variant{name, y})
 		}
 	}
+	// the changed id is a fresh one, or (near) an id on another host that carries the old one in its query, as the ids of
+	// interaction and proxy endpoints do: another resource although both strings end alike
+	near := false
+	changed := func(old ap.IRI) ap.IRI {
+		if near {
+			return ap.IRI("https://changed.example.net/authorize_interaction?uri=" + string(old))
+		}
+		return newID()
+	}
 	changeMember := func(it ap.Item) (ap.Item, bool) {
-		switch it.(type) {
+		switch v := it.(type) {
 		case ap.IRI:
-			return newID(), true
+			return changed(v), true
 		case *ap.Link, ap.Link, ap.ItemCollection, ap.IRIs:
 			return nil, false
 		}
@@ -221,21 +230,26 @@ func c09Variants(x ap.Item, f vocab.Field) (out []c09Variant) {
 		if sv.Kind() != reflect.Ptr || sv.IsNil() || sv.Elem().Kind() != reflect.Struct || sv.Elem().FieldByName("ID").Len() == 0 {
 			return nil, false
 		}
-		sv.Elem().FieldByName("ID").SetString(string(newID()))
+		sv.Elem().FieldByName("ID").SetString(string(changed(ap.IRI(sv.Elem().FieldByName("ID").String()))))
 		return it, true
 	}
 	listVariants := func(get func(fv reflect.Value) ap.ItemCollection, set func(fv reflect.Value, l ap.ItemCollection)) {
 		l0 := get(reflect.ValueOf(x).Elem().Field(f.Index))
 		for i := range l0 {
 			i := i
-			with(fmt.Sprintf("member-id #%d", i), func(fv reflect.Value) bool {
-				l := get(fv)
-				n, ok := changeMember(l[i])
-				if ok {
-					l[i] = n
-				}
-				return ok
-			})
+			for _, nr := range []bool{false, true} {
+				nr := nr
+				with(fmt.Sprintf("member-id #%d near=%v", i, nr), func(fv reflect.Value) bool {
+					near = nr
+					defer func() { near = false }()
+					l := get(fv)
+					n, ok := changeMember(l[i])
+					if ok {
+						l[i] = n
+					}
+					return ok
+				})
+			}
 		}
 		with("member-added last", func(fv reflect.Value) bool { set(fv, append(get(fv), newID())); return true })
 		with("member-added first", func(fv reflect.Value) bool { set(fv, append(ap.ItemCollection{newID()}, get(fv)...)); return true })
@@ -304,13 +318,18 @@ func c09Variants(x ap.Item, f vocab.Field) (out []c09Variant) {
 				func(fv reflect.Value, l ap.ItemCollection) { var it ap.Item = l; fv.Set(reflect.ValueOf(&it).Elem()) })
 			return out
 		}
-		with("item-id", func(fv reflect.Value) bool {
-			n, ok := changeMember(fv.Interface().(ap.Item))
-			if ok {
-				fv.Set(reflect.ValueOf(&n).Elem())
-			}
-			return ok
-		})
+		for _, nr := range []bool{false, true} {
+			nr := nr
+			with(fmt.Sprintf("item-id near=%v", nr), func(fv reflect.Value) bool {
+				near = nr
+				defer func() { near = false }()
+				n, ok := changeMember(fv.Interface().(ap.Item))
+				if ok {
+					fv.Set(reflect.ValueOf(&n).Elem())
+				}
+				return ok
+			})
+		}
 	case vocab.KItems:
 		listVariants(func(fv reflect.Value) ap.ItemCollection { return fv.Interface().(ap.ItemCollection) },
 			func(fv reflect.Value, l ap.ItemCollection) { fv.Set(reflect.ValueOf(l)) })
@@ -555,7 +574,7 @@ func TestC09(t *testing.T) {
 		for _, a := range vocab.StructTypes {
 			for _, b := range vocab.StructTypes {
 				for _, full := range []bool{false, true} {
-					for _, variant := range []string{"ids-differ", "types-differ", "ids-differ-host", "ids-differ-port", "ids-differ-query", "ids-differ-query-value", "ids-differ-repeated-key", "ids-differ-repeated-key-multiset", "ids-differ-opaque", "types-differ-one-untyped"} {
+					for _, variant := range []string{"ids-differ", "types-differ", "ids-differ-host", "ids-differ-port", "ids-differ-query", "ids-differ-query-value", "ids-differ-repeated-key", "ids-differ-repeated-key-multiset", "ids-differ-opaque", "ids-differ-wrapped", "types-differ-one-untyped"} {
 						if a.Name() == "Link" || b.Name() == "Link" {
 							continue // the clause speaks of objects
 						}
@@ -575,6 +594,8 @@ func TestC09(t *testing.T) {
 						case "ids-differ-opaque":
 							// ids that are URIs without an authority: different strings are different objects
 							ida, idb = "urn:uuid:6e8bc430-9c3a-11d9-9669-0800200c9a66", "urn:uuid:6e8bc430-9c3a-11d9-9669-0800200c9a67"
+						case "ids-differ-wrapped":
+							ida, idb = "https://example.com/things/1", "https://social.example.net/authorize_interaction?uri=https://example.com/things/1"
 						case "ids-differ-repeated-key-multiset":
 							ida, idb = "https://example.com/things/1?x=1&x=1", "https://example.com/things/1?x=1&x=2"
 						}
